@@ -267,7 +267,14 @@ tricky to support since the general code relies on the function name)''')
         The results are cached, so the first call can be much slower than
         subsequent calls.
         '''
-        return self.__jug_hash__()
+        try:
+            return self.__jug_hash__()
+        except RecursionError:
+            # Hashing recurses once per link of a dependency chain. For very
+            # long chains, hash the dependencies bottom-up with an explicit
+            # stack first (hashes are cached), then try again.
+            _hash_dependencies_iteratively(self)
+            return self.__jug_hash__()
 
     def _compute_set_hash(self):
         M = new_hash_object()
@@ -452,6 +459,22 @@ class Tasklet(TaskletMixin):
                 ('f', self.f if getattr(self.f, '__name__', '') != '<lambda>' else ('<lambda>', _code_key(self.f.__code__)))
             ])
         return M.hexdigest().encode('utf-8')
+
+def _hash_dependencies_iteratively(t):
+    stack = [(t, False)]
+    seen = set()
+    while stack:
+        node, expanded = stack.pop()
+        if expanded:
+            node.__jug_hash__()
+            continue
+        if id(node) in seen:
+            continue
+        seen.add(id(node))
+        stack.append((node, True))
+        for dep in node.dependencies():
+            if id(dep) not in seen:
+                stack.append((dep, False))
 
 def topological_sort(tasks):
     '''
